@@ -1,10 +1,116 @@
 import Driver.Common
-/-! C18 driver (stub: answers bad-op until the property's model is wired in). -/
-open Driver
+import Sourmash.Model.HLL
+import Sourmash.Model.HLLFloat
+/-! C18 driver.  Model column: the integer model (`counts`, `five`, the `…G` bookkeeping of
+`Model/HLLFloat.lean`) instantiated with the binary64 transcription of the secant iteration
+(`Hll.F.mleIter`) — compared bit for bit with the crate.  Spec column: what the property demands
+and a finite run can decide: `0` for an empty sketch, `within` the 6σ+1 window, `consistent`,
+`same`. -/
+open Driver Hll
 
-def stepC18 (s : Unit) (ws : List String) : Unit × Resp :=
+def splitmix64 (i : UInt64) : UInt64 :=
+  let z := i + 0x9E3779B97F4A7C15
+  let z := (z ^^^ (z >>> 30)) * 0xBF58476D1CE4E5B9
+  let z := (z ^^^ (z >>> 27)) * 0x94D049BB133111EB
+  z ^^^ (z >>> 31)
+
+structure Sk where
+  h : H
+  start : Nat
+  n : Nat
+
+structure St where
+  a : Option Sk := none
+  b : Option Sk := none
+
+def build (p start n : Nat) : Option Sk :=
+  match H.new p 21 with
+  | .ok h =>
+    let h := Id.run do
+      let mut h := h
+      for i in [0:n] do
+        h := h.add (splitmix64 (UInt64.ofNat (start + i))).toNat
+      return h
+    some { h := h, start := start, n := n }
+  | .error _ => none
+
+def hex16 (x : UInt64) : String :=
+  String.ofList ((List.range 16).map (fun i => hexDigit ((x >>> (UInt64.ofNat (60 - 4 * i))).toNat % 16)))
+
+/-- f64 bit pattern; NaN has no canonical one (`Float.toBits` canonicalises, Rust does not) -/
+def fbits (f : Float) : String := if f.isNaN then "nan" else hex16 f.toBits
+
+/-- `|est − truth| ≤ mult · 1.04/√m · scale + slack`, exactly: `(d − slack)² · m · 10⁴ ≤ (mult·104·scale)²` -/
+def within (est truth scale p mult slack : Nat) : Bool :=
+  let d := if est ≥ truth then est - truth else truth - est
+  if d ≤ slack then true else
+    let d := d - slack
+    -- the harness computes in u128 and reports `outside` when the left side does not fit
+    let lhs := d * d * (2 ^ p * 10000)
+    let rhs := mult * 104 * scale
+    if lhs ≥ 2 ^ 128 then false else if rhs * rhs ≥ 2 ^ 128 then true else decide (lhs ≤ rhs * rhs)
+
+def overlap (a b : Sk) : Nat × Nat :=
+  let lo := max a.start b.start
+  let hi := min (a.start + a.n) (b.start + b.n)
+  let inter := hi - lo
+  (inter, a.n + b.n - inter)
+
+def stepC18 (st : St) (ws : List String) : St × Resp :=
+  let which (w : String) : Option Sk := if w == "A" then st.a else st.b
   match ws with
-  | "case" :: _ => (s, { model := "ok" })
-  | _ => (s, { model := "bad-op" })
+  | "case" :: _ => (st, { model := "ok" })
+  | [w, p, start, n] =>
+    let sk := build p.toNat! start.toNat! n.toNat!
+    let nz := match sk with
+      | some s => s.h.regs.foldl (fun n r => if r == 0 then n else n + 1) 0
+      | none => 0
+    if w == "A" then ({ st with a := sk }, { model := s!"nz={nz}" })
+    else if w == "B" then ({ st with b := sk }, { model := s!"nz={nz}" })
+    else (st, { model := "bad-op" })
+  | ["hist", w] =>
+    match which w with
+    | some s => (st, { model := showNats (counts s.h.regs s.h.q).toList })
+    | none => (st, { model := "none" })
+  | ["card", w] =>
+    match which w with
+    | some s =>
+      let f := F.mle (counts s.h.regs s.h.q) s.h.p s.h.q (relerrOf s.h.p)
+      (st, { model := s!"card={F.cardinality s.h} bits={fbits f}" })
+    | none => (st, { model := "none" })
+  | ["cardint", w] =>
+    match which w with
+    | some s => (st, { model := toString (F.cardinality s.h), spec := if s.n == 0 then "0" else "-" })
+    | none => (st, { model := "none" })
+  | ["bound", w] =>
+    match which w with
+    | some s =>
+      let ok := within (F.cardinality s.h) s.n s.n s.h.p 6 1
+      (st, { model := if ok then "within" else "outside", spec := "within" })
+    | none => (st, { model := "none" })
+  | [op] =>
+    match st.a, st.b with
+    | some a, some b =>
+      let t := tripleG F.mleIter a.h b.h
+      if op == "joint" then (st, { model := s!"a={t.1} b={t.2.1} i={t.2.2}" })
+      else if op == "api" then
+        (st, { model := s!"u={unionG F.mleIter a.h b.h} i={intersectionG F.mleIter a.h b.h} s={fbits (similarityG F.mleIter a.h b.h)} c={fbits (containmentG F.mleIter a.h b.h)}" })
+      else if op == "consist" then
+        -- in the model the four answers are functions of one triple by definition (Theorems/C18, T-consistent)
+        (st, { model := "consistent", spec := "consistent" })
+      else if op == "jhist" then
+        let m := match a.h.merge b.h with | .ok m => m | .error _ => a.h
+        let c001 (h : H) := F.mle (counts h.regs h.q) h.p h.q 0.01
+        let ok := satUsize (c001 m - c001 b.h) == t.1 && satUsize (c001 m - c001 a.h) == t.2.1
+        (st, { model := if ok then "same" else "differ", spec := "same" })
+      else if op == "jbound" then
+        let (ti, tu) := overlap a b
+        let u := t.1 + t.2.1 + t.2.2
+        let bad := (if within u tu tu a.h.p 6 1 then [] else ["union"]) ++
+                   (if within t.2.2 ti tu a.h.p 6 1 then [] else ["intersection"])
+        (st, { model := if bad.isEmpty then "within" else "outside " ++ ",".intercalate bad, spec := "within" })
+      else (st, { model := "bad-op" })
+    | _, _ => (st, { model := "none" })
+  | _ => (st, { model := "bad-op" })
 
-def main : IO Unit := Driver.run () stepC18
+def main : IO Unit := Driver.run ({} : St) stepC18
